@@ -563,10 +563,15 @@ def run(tier, seed):
     lines, listsets = eight_mod_lines(tier, rng)
     jobs, insts = pipeline_jobs(tier, rng)
     # DESIGN 3.4 model mutant of the pipeline monitor: L1 with an is_idle that ignores keys still to be written
-    # (Bug = "idle_ignores_prev", the code before fix 345be8d) must be rejected by O5a on the roa instance
+    # (Bug = "idle_ignores_owed", the code before fixes 345be8d and d2e57b2) must be rejected by O5a on the roa instance
     meta = dict([i for i in insts if i["name"] == "c13_t1_roa_id"][0])
-    meta.update({"name": "c13_meta_idle_prev", "bug": "idle_ignores_prev", "edges": False, "meta": True})
-    rs = [None] * (len(insts) + 1)
+    meta.update({"name": "c13_meta_idle_owed", "bug": "idle_ignores_owed", "edges": False, "meta": True})
+    # ... and one that ignores the keys owed a PRESS after a roa activation (Bug = "idle_ignores_roa_removed", the code
+    # before fix d2e57b2) by O5b on the roa instance whose table has an override output that can be held as well
+    meta2 = dict([i for i in insts if i["name"] == "c13_t2_roa_sw"][0])
+    meta2.update({"name": "c13_meta_idle_roa", "bug": "idle_ignores_roa_removed", "edges": False, "meta": True})
+    metas = [(meta, "idle_ignores_owed", "C13 O5a"), (meta2, "idle_ignores_roa_removed", "C13 O5b")]
+    rs = [None] * (len(insts) + len(metas))
     exc = []
     sem = threading.Semaphore(5 if tier == "quick" else 3)      # TLC runs of part P at a time (they run next to part F)
 
@@ -579,7 +584,7 @@ def run(tier, seed):
                                           replay=not inst.get("meta"))
             except Exception as e:
                 exc.append(e)
-    mth = [threading.Thread(target=mc_work, args=x) for x in enumerate(insts + [meta])] if "P" in parts else []
+    mth = [threading.Thread(target=mc_work, args=x) for x in enumerate(insts + [m[0] for m in metas])] if "P" in parts else []
     th = [threading.Thread(target=level_work, args=(i, u)) for i, u in enumerate(unis)]
     for t in mth + th:
         t.start()
@@ -657,14 +662,15 @@ def run(tier, seed):
         t.join()
     if exc:
         raise exc[0]
-    rm = rs.pop()
-    o5a = sum(1 for w in flow.witness_scripts(rm["monerr_file"], 100000) if w["err"].startswith("C13 O5a"))
-    if not o5a:
-        raise ToolError("model mutant idle_ignores_prev (blocked loop owes the release of an override output) is not "
-                        "rejected by P_C13 O5a")
-    mutants["idle_ignores_prev"] = o5a
-    res.states += rm["states"] or 0
-    res.transitions += rm["generated"] or 0
+    for (minst, bug, rule), rm in zip(metas, rs[len(insts):]):
+        nrej = sum(1 for w in flow.witness_scripts(rm["monerr_file"], 100000) if w["err"].startswith(rule))
+        if not nrej:
+            raise ToolError("model mutant %s (the blocked loop still owes a key event) is not rejected by P_%s" %
+                            (bug, rule.replace(" ", "_")))
+        mutants[bug] = nrej
+        res.states += rm["states"] or 0
+        res.transitions += rm["generated"] or 0
+    rs = rs[:len(insts)]
     for inst, r in zip(insts, rs):
         res.add_instance(r)
         log("[c13] instance %s: %d states, %d edges replayed, drift %d, monitor errors %d, tlc %.0fs" %
